@@ -16,7 +16,7 @@ import (
 type Roles struct {
 	c *Ctx
 
-	SendersF, ReceiversF, CachedF, CurAssetF *types.Var
+	SendersF, ReceiversF, CachedF, CurAssetF         *types.Var
 	SenderAmt, ReceiverAmt, SenderName, ReceiverName *types.Var
 	PostSrc, PostDst, PostAmt, PostAsset             *types.Var
 
